@@ -59,6 +59,7 @@ impl State {
 //@use state.fns State::location_from_current_ip
 //@use state.fns State::set_runtime_err_location
 //@use state.fns State::next
+//@use state.fns State::run#loop
 //@use state.fns State::reverse_changes
 //@use state.fns State::dict_entry
 //@use state.fns State::load_value_opcode
@@ -115,6 +116,7 @@ fn call_native(x: XfnPtr, xs: &mut State) -> (r: Xresult)
         final(xs).ctx.ip == old(xs).ctx.ip,
         final(xs).code@.len() == old(xs).code@.len(),
         final(xs).insn_meter == old(xs).insn_meter,
+        final(xs).last_error == old(xs).last_error,
         exists|n: nat| #[trigger] rev_w(old(xs), final(xs), n) && rev_ext(old(xs), final(xs), n),
 { unimplemented!() }
 
